@@ -13,6 +13,8 @@
 (* of Shlibs!Judge on the abstract case; names are compared as strings.    *)
 (* DRIFT = the observation differs from the implementation-shaped layer    *)
 (* (Run) although the property layer accepts it: a note, never an alarm.   *)
+(* OUTSIDE / FILE-SKIPPED / MALFORMED are notes for the harness as well    *)
+(* (a random case OUTSIDE the quantifier or MALFORMED is a generator bug). *)
 (***************************************************************************)
 EXTENDS Shlibs, Json, IOUtils
 
@@ -21,22 +23,27 @@ N == Len(Obs)
 CaseOf(r) == [t |-> "ldd", reqs |-> r.reqs, files |-> r.files, listing |-> r.listing]
 OutOf(r) == [kind |-> r.kind, out |-> r.out, msgc |-> r.msgc]
 
-J == [i \in 1..N |-> LET c == CaseOf(Obs[i])
+J == TLCEval([i \in 1..N |-> LET c == CaseOf(Obs[i])
                          j == Judge(c, OutOf(Obs[i]))
                          e == Run("asis", c)
                      IN [failed |-> {n \in ClauseNames : ~j.cl[n]},
                          speaks |-> {n \in ClauseNames : j.sp[n]},
-                         wf |-> WFCase(c),
-                         drift |-> ~(e.kind = Obs[i].kind /\ e.out = Obs[i].out)]]
+                         wf |-> WFCase(c), dom |-> j.dom,
+                         \* (a note) a request naming an existing file was left unresolved without an error
+                         fileskip |-> Obs[i].files # <<>> /\ Obs[i].kind = "ok" /\ Len(Obs[i].out) < Cardinality(ToSet(Obs[i].reqs)),
+                         drift |-> ~(e.kind = Obs[i].kind /\ e.out = Obs[i].out)]])
 
-Cause(r) == IF r.files # <<>> THEN "request_names_existing_file" ELSE "-"
+Cause(r) == "-"
 Rejected == UNION {{<<Obs[i].id, n, Cause(Obs[i])>> : n \in J[i].failed} : i \in 1..N}
             \cup {<<Obs[i].id, "DRIFT", "differs from Shlibs!Run">> : i \in {k \in 1..N : J[k].drift /\ J[k].failed = {}}}
+            \cup {<<Obs[i].id, "OUTSIDE", "outside the quantifier: a listed file satisfies two requests">> : i \in {k \in 1..N : J[k].wf /\ ~J[k].dom}}
+            \cup {<<Obs[i].id, "FILE-SKIPPED", "request names an existing file: no pattern, no error">> : i \in {k \in 1..N : J[k].fileskip}}
             \cup {<<Obs[i].id, "MALFORMED", "renderer produced an ill-formed case">> : i \in {k \in 1..N : ~J[k].wf}}
 Exercised == [n \in ClauseNames |-> Cardinality({i \in 1..N : n \in J[i].speaks})]
+             @@ [InDomain |-> Cardinality({i \in 1..N : J[i].dom}), ExistingFile |-> Cardinality({i \in 1..N : Obs[i].files # <<>>})]
 
 ASSUME JsonSerialize(IOEnv.VERDICT_FILE, [n |-> N, rejected |-> SetToSeq(Rejected), exercised |-> Exercised])
 
-TInit == cid = 0 /\ st = Idle /\ outcome = None
-TNext == cid = 0 /\ cid' = 1 /\ UNCHANGED <<st, outcome>>
+TInit == case = [t |-> "none"] /\ st = Idle /\ outcome = None
+TNext == UNCHANGED vars
 =============================================================================
